@@ -108,8 +108,7 @@ verif_osstring_from($a)
 //@unit id=A2 file=src/flags.rs fn=<<impl Args::disabled_validators>> ret=r
 //@contract
         ensures
-            r@ == name_set(self.disabled_validators@), // [A2.post.set_of_disabled_names]
-            r@.finite(),
+            is_name_set(r@, self.disabled_validators@), // [A2.post.set_of_disabled_names]
 //@chain rule=E3 find=<<.iter().map(AsRef::as_ref).collect()>> to=verif_iter_as_ref_collect_set recvprefix=<<&>>
 //@end
 
@@ -117,8 +116,7 @@ verif_osstring_from($a)
 //@unit id=A3 file=src/flags.rs fn=<<impl Args::enabled_validators>> ret=r
 //@contract
         ensures
-            r@ == name_set(self.enabled_validators@), // [A3.post.set_of_enabled_names]
-            r@.finite(),
+            is_name_set(r@, self.enabled_validators@), // [A3.post.set_of_enabled_names]
 //@chain rule=E3 find=<<.iter().map(AsRef::as_ref).collect()>> to=verif_iter_as_ref_collect_set recvprefix=<<&>>
 //@end
 
